@@ -158,14 +158,16 @@ class SetupRiemannProblem(object):
     
     
     def determine_shock_angle(self, state):
-        angle = self.deflection_angle_solution
-        _, _, M, _, g = state
+        _, _, M, theta_deg, g = state
+        theta_rad = theta_deg / 180. * pi
+        # turning angle relative to the upstream flow direction
+        angle = self.deflection_angle_solution - theta_rad
         def get_shock_contact_angle(x):
             val  = 2. / tan(x) * (M**2 * sin(x)**2 - 1.)
             val /= (2. + M**2 * (g + cos(2. * x)))
             return val
         return fsolve(lambda x:
-                      get_shock_contact_angle(x)-tan(angle), angle)[0]
+                      get_shock_contact_angle(x)-tan(angle), angle)[0] + theta_rad
     
 
     def set_starstate_values(self):
